@@ -71,6 +71,23 @@ inductive Ev where
   | chunk (chan key : Nat)
   deriving Repr, DecidableEq
 
+/-- the same on a channel in mode None: `channelInstance.verifyAndDecrypt` returns
+    the chunk as it is (`SecurityMode == None && !isAsymmetric`), so the first
+    instance tried — the newest one stored for the header's channel id —
+    "verifies" every chunk; neither keys nor the token id of the symmetric
+    security header are looked at -/
+def verifyNone (t : Table) (chan : Nat) : Verdict :=
+  match (t.get chan).reverse with
+  | [] => .noInstance
+  | i :: _ => .accepted i.tok
+
+/-- verdicts of the chunk events of a run on a mode-None channel -/
+def verdictsNone : Table → List Ev → List Verdict
+  | _, [] => []
+  | t, .chunk c _ :: r => verifyNone t c :: verdictsNone t r
+  | t, .opn i :: r => verdictsNone (install t i) r
+  | t, .expire i :: r => verdictsNone (expire t i) r
+
 def stepEv (t : Table) : Ev → Table × Option Verdict
   | .opn i => (install t i, none)
   | .expire i => (expire t i, none)
